@@ -46,6 +46,7 @@ def main():
     ap.add_argument("--skip-tests", action="store_true")
     ap.add_argument("--in-repo", action="store_true")
     ap.add_argument("--jobs", type=int, default=5)
+    ap.add_argument("--merge", action="store_true", help="keep the results of checks not run this time")
     a = ap.parse_args()
     a.dir = os.path.abspath(a.dir)
     patch = os.path.join(a.dir, "patch.diff")
@@ -114,7 +115,17 @@ def main():
             sh("git -C /repo worktree remove --force %s" % repo)
         shutil.rmtree(outdir, ignore_errors=True)
     print(json.dumps({k: v for k, v in out.items() if k != "results"}))
-    json.dump(out, open(os.path.join(a.dir, "seedtest_result.json"), "w"), indent=1)
+    rp = os.path.join(a.dir, "seedtest_result.json")
+    if a.merge and os.path.exists(rp):
+        try:
+            old = json.load(open(rp))
+            merged = dict(old.get("results", {}))
+            merged.update(out["results"])
+            out = dict(old, **{k: v for k, v in out.items() if k != "results"})
+            out["results"] = merged
+        except Exception:
+            pass
+    json.dump(out, open(rp, "w"), indent=1)
 
 
 if __name__ == "__main__":
